@@ -31,6 +31,10 @@ extern unsigned vp_hmac_calls, vp_crc_calls;
 void vp_cand_set(QXmppJingleCandidate *c, int type, int component, int priority);
 void vp_fake_transport(void *storage, const QXmppJingleCandidate *local);
 }
+// keeps encode() (and with it the by-value return type of QHostAddress::toIPv6Address that stun_models.c names) in the translated program of
+// every entry, whatever subset of instances is selected; vp_never() is the constant 0, symex never enters the branch
+extern "C" unsigned vp_never();
+static void keepEncode() { if (vp_never()) { QXmppStunMessage m; m.encode(QByteArray(), false); } }
 static QByteArray freshBytes(unsigned minlen, unsigned maxlen) { QByteArray b; vp_fresh_bytes(&b, minlen, maxlen); return b; }
 static QString freshAscii(unsigned len) { QString s; vp_fresh_ascii(&s, len); return s; }
 static unsigned u8(const QByteArray &b, unsigned i) { return vp_byte_at(&b, i); }
@@ -48,6 +52,7 @@ enum { G_INTS = 1, G_ADDR4 = 2, G_ADDR4X = 3, G_ADDR6 = 4, G_ADDR6X = 5, G_STR =
 //     decode under the same key, compare every getter.
 extern "C" void h_rt()
 {
+    keepEncode();
     const unsigned grp = vp_cfg0(), keylen = vp_cfg1(), fp = vp_cfg2(), len = vp_cfg3();
     QByteArray key = freshBytes(keylen, keylen);
     QXmppStunMessage m;
@@ -83,8 +88,10 @@ extern "C" void h_rt()
     } else if (grp == G_ICED) {
         d[3] = freshBytes(8, 8); m.iceControlled = d[3];
     } else if (grp == G_ERR) {
-        int code = vp_int(); vp_assume(code >= 300 && code <= 699);      // RFC 5389 15.6: class 3..6, number 0..99
-        m.errorCode = code; s[0] = freshAscii(len); m.errorPhrase = s[0];
+        // the code is a per-instance constant (errorCode == 0 means "absent" to encode and would fork the layout);
+        // symbolic codes are covered by h_enc_err / h_dec_err
+        static const int codes[] = { 300, 401, 438, 487, 500, 699, 420, 403, 599 };
+        m.errorCode = codes[len]; s[0] = freshAscii(len); m.errorPhrase = s[0];
     }
     const QByteArray e = m.encode(key, fp != 0);
 
@@ -151,6 +158,7 @@ extern "C" void h_rt()
 // cfg0: 0 = MAPPED-ADDRESS (plain), 1 = XOR-MAPPED-ADDRESS
 extern "C" void h_enc_addr()
 {
+    keepEncode();
     const bool x = vp_cfg0() != 0;
     QXmppStunMessage m; m.setId(freshBytes(12, 12));
     QHostAddress a; vp_sym_addr4(&a); const quint16 port = vp_u16(); const quint32 ip = a.toIPv4Address();
@@ -164,6 +172,7 @@ extern "C" void h_enc_addr()
 }
 extern "C" void h_dec_addr()
 {
+    keepEncode();
     const bool x = vp_cfg0() != 0;
     QByteArray b = freshBytes(32, 32);
     put16(b, 2, 12); put16(b, 20, x ? 0x0020 : 0x0001); put16(b, 22, 8); vp_set_byte(&b, 25, 1);     // reserved byte 24 stays arbitrary
@@ -176,6 +185,35 @@ extern "C" void h_dec_addr()
     vp_assert(h.protocol() == QAbstractSocket::IPv4Protocol && h.toIPv4Address() == (x ? (be32(b, 28) ^ 0x2112A442u) : be32(b, 28)), "C14 decoded address = (X-)Address");
 }
 
+// ERROR-CODE with a symbolic code: encode half (class 3..6, number 0..99: RFC 5389 15.6) and decode half (any class/number byte)
+extern "C" void h_enc_err()
+{
+    keepEncode();
+    QXmppStunMessage m;
+    const unsigned cls = vp_u8(), num = vp_u8(); vp_assume(cls >= 3 && cls <= 6 && num <= 99);
+    m.errorCode = int(cls * 100 + num);
+    const QByteArray e = m.encode(QByteArray(), false);
+    vp_assert(e.size() == 28 && be16(e, 2) == 8, "C14 ERROR-CODE with empty reason: 8 bytes");
+    vp_assert(be16(e, 20) == 0x0009 && be16(e, 22) == 4 && be16(e, 24) == 0, "C14 ERROR-CODE header: type 9, length 4, reserved 0");
+    vp_assert(u8(e, 26) == cls && u8(e, 27) == num, "C14 ERROR-CODE class = code / 100, number = code % 100");
+}
+extern "C" void h_dec_err()
+{
+    keepEncode();
+    const unsigned len = vp_cfg0(), padded = (len + 3) & ~3u, n = 20 + 8 + padded;
+    QByteArray b = freshBytes(n, n);
+    put16(b, 2, n - 20); put16(b, 20, 0x0009); put16(b, 22, 4 + len);
+    for (unsigned i = 0; i < len; i++) vp_assume(u8(b, 28 + i) >= 1 && u8(b, 28 + i) < 0x80);
+    QXmppStunMessage r;
+    const bool ok = r.decode(b, QByteArray(), nullptr);
+    vp_assert(ok, "C14 well-formed ERROR-CODE attribute is accepted");
+    if (!ok) return;
+    vp_assert(r.errorCode == int(u8(b, 26) * 100 + u8(b, 27)), "C14 decoded error code = class * 100 + number");
+    bool same = unsigned(r.errorPhrase.size()) == len;
+    for (unsigned i = 0; i < len; i++) same = same && i < unsigned(r.errorPhrase.size()) && r.errorPhrase.at(i).unicode() == u8(b, 28 + i);
+    vp_assert(same, "C14 decoded reason phrase = the bytes after the 4-byte code");
+}
+
 // ---------------------------------------------------------------------------------------------------------------------------
 // (4) integrity / fingerprint acceptance on buffers with a fixed attribute layout; header, attribute LENGTH fields of the
 //     last attribute and all payload bytes are symbolic; key non-empty (1..2 symbolic bytes).
@@ -183,6 +221,7 @@ extern "C" void h_dec_addr()
 enum { V_MI = 1, V_MI_FP = 2, V_PRIO_MI = 3, V_USER_MI = 4, V_XADDR_MI = 5, V_UNK_MI = 6, V_MI_PRIO = 7, V_FP = 8, V_MI_MI = 9 };
 extern "C" void h_dec_mi()
 {
+    keepEncode();
     const unsigned var = vp_cfg0(), kmax = vp_cfg1();
     QByteArray key = kmax ? freshBytes(1, kmax) : QByteArray();
     unsigned pre = 0, ptype = 0, plen = 0;          // a first attribute in front of MESSAGE-INTEGRITY
@@ -230,6 +269,9 @@ extern "C" void h_dec_mi()
     } else {
         vp_assert(ok == expect, "C14 FINGERPRINT / MESSAGE-INTEGRITY acceptance without a key");
     }
+#if defined(KF_stun_no_integrity) && !defined(VP_DEMONSTRATE_KF)
+    if (verifiedInDecode == 0) return;
+#endif
     if (vp_cfg2()) vp_assert(!ok || key.isEmpty() || verifiedInDecode >= 1, "C15 decode under a non-empty key returns true only if a MESSAGE-INTEGRITY attribute was verified");
     if (ok) {
         if (var == V_PRIO_MI) vp_assert(r.priority() == be32(b, 24), "C14 attribute in front of MESSAGE-INTEGRITY is decoded");
@@ -251,14 +293,18 @@ static bool decodeAny(bool c15)
     QByteArray key = kmax ? freshBytes(1, kmax) : QByteArray();
     QXmppStunMessage r;
     const bool ok = r.decode(b, key, nullptr);
+#if defined(KF_stun_no_integrity) && !defined(VP_DEMONSTRATE_KF)
+    if (vp_hmac_calls == 0) return ok;      // known finding stun_no_integrity: messages without any MESSAGE-INTEGRITY are accepted under a key
+#endif
     if (c15) vp_assert(!ok || key.isEmpty() || vp_hmac_calls > 0, "C15 decode under a non-empty key returns true only if a MESSAGE-INTEGRITY attribute was verified");
     return ok;
 }
-extern "C" void h_dec_any() { decodeAny(false); }
-extern "C" void h_auth_any() { decodeAny(true); }
+extern "C" void h_dec_any() { keepEncode(); decodeAny(false); }
+extern "C" void h_auth_any() { keepEncode(); decodeAny(true); }
 // truncated packets and packets whose length field does not match: rejected, nothing else is read
 extern "C" void h_dec_short()
 {
+    keepEncode();
     for (unsigned n = 0; n < 20; n++) {          // every size below the header size; the size is a constant in each round
         QByteArray b = freshBytes(n, n); QByteArray key = freshBytes(0, 1);
         QXmppStunMessage r;
@@ -269,6 +315,7 @@ extern "C" void h_dec_short()
 }
 extern "C" void h_dec_badlen()
 {
+    keepEncode();
     const unsigned n = vp_cfg0();                // 28: header + one well-formed PRIORITY attribute
     QByteArray b = freshBytes(n, n); QByteArray key = freshBytes(0, 1);
     put16(b, 20, 0x0024); put16(b, 22, 4);
@@ -280,6 +327,7 @@ extern "C" void h_dec_badlen()
 }
 extern "C" void h_peek()
 {
+    keepEncode();
     const unsigned n = vp_cfg0();
     QByteArray b = freshBytes(n, n); put16(b, 2, n - 20);
     quint32 cookie = 7; QByteArray id;
@@ -292,6 +340,7 @@ extern "C" void h_peek()
 // C15 (ii): priority formulas of RFC 5245 4.1.2.1 and 5.7.2
 extern "C" void h_prio_cand()
 {
+    keepEncode();
     QXmppJingleCandidate c; const int type = vp_int(), comp = vp_int(), localPref = vp_int();
     vp_assume(type >= 0 && type <= 3);                       // QXmppJingleCandidate::Type
     vp_assume(comp >= 1 && comp <= 256);                     // RFC 5245: component ID 1..256
@@ -306,9 +355,11 @@ extern "C" void h_prio_cand()
 }
 extern "C" void h_prio_pair()
 {
+    keepEncode();
     VpRaw<CandidatePair> pair;                                // QObject part is never touched by priority()
     alignas(16) static char transport[64];
     QXmppJingleCandidate local, remote; const quint32 lp = vp_u32(), rp = vp_u32(); const bool controlling = vp_bool(); const int comp = vp_int();
+    if (!vp_cfg0()) vp_assume(lp <= 0x7fffffffu && rp <= 0x7fffffffu);      // RFC 5245 4.1.2: a candidate priority is in 1..2^31-1
     vp_cand_set(&local, 0, comp, int(lp)); vp_cand_set(&remote, 0, comp, int(rp));
     vp_fake_transport(transport, &local);
     new (&pair->remote) QXmppJingleCandidate(remote);
